@@ -926,7 +926,11 @@ func (w *srvWorld) runInner() {
 		case "unyield":
 			w.unyield(a.yp)
 		case "accept-err":
-			w.lis.FailAccept()
+			if t.Chance(1, 3) {
+				w.lis.FailAcceptTimeout()
+			} else {
+				w.lis.FailAccept()
+			}
 			acceptErrsLeft--
 			w.needClock = true
 			e.Fault("accept-temp-error")
